@@ -78,4 +78,33 @@ PROPS = {
         assumptions=["the transport delivers bytes in order; a delivery larger than the free buffer space is split by read()",
                      "model of ReadBuffer/MbapParser is hand-written; equality with the code is sampled by the rdr suite"],
     ),
+    "C06": dict(
+        audit_modules=["RodbusModel.Audit.C06"],
+        required_theorems=["Rodbus.C06.format_crc", "Rodbus.C06.format_len_le", "Rodbus.C06.accept_sound",
+                           "Rodbus.C06.rtu_chunking_independent", "Rodbus.C06.burst_detected",
+                           "Rodbus.C06.single_bit_detected", "Rodbus.C06.double_bit_detected",
+                           "Rodbus.C06.crc_trailer_zero_iff", "Rodbus.C06.corrupted_frame_crc_mismatch",
+                           "Rodbus.C06.corruption_rejected_partial", "Rodbus.C06.format_parse_roundtrip"],
+        suites=[dict(gen="crc", n=(3000, 100000)),
+                dict(gen="rdr_rtu", n=(3000, 60000),
+                     exhaustive="both parser directions: all chunk compositions of fixed frames <= 9 (11) bytes; every single-bit "
+                                "error of 17 fixed frames; double-bit errors (every 23rd pair quick, all pairs thorough); "
+                                "bursts <= 16 bits at every 3rd (every) start")],
+        level_text="Proof: CRC-16/MODBUS algebra on the bit-serial register (linearity, injectivity on 16-bit values, order of x) "
+                   "gives burst_detected (<=16 bits), single_bit_detected, double_bit_detected (frames up to 2100 bits) and the bridge "
+                   "crc_trailer_zero_iff; format_crc/format_len_le (emitted frames carry the right CRC, <= 256 bytes); accept_sound (a frame "
+                   "is delivered only if its CRC verifies over exactly the span the length rule selects); rtu_chunking_independent (all "
+                   "chunkings, both directions); corrupted_frame_crc_mismatch; corruption_rejected_partial (parser level, under the hypothesis "
+                   "that the corruption leaves the length rule's result unchanged - a protocol limit, witness byte_count_flip_accepted). "
+                   "Tie: production RtuParser/FramedReader and the crc crate run on the same streams.",
+        level_note="Partial: corruption theorem requires unchanged delimitation (forced by length-delimited RTU framing). Trusted: Lean kernel; "
+                   "bitwise CRC model vs. the crc crate's table implementation (sampled by the crc suite); hand-written parser model; emitted-frame "
+                   "bound for client requests relies on C03's request limits.",
+        technique="Lean 4 algebraic proof of CRC detection + refinement proof of the RTU reader + differential correspondence incl. exhaustive bit flips",
+        classify=classify_rdr, nontrivial=nontrivial_rdr, finding_key=no_key,
+        rule="crc suite: random byte strings (1..260 B) + repo vectors; rdr suite: see exhaustive_subdomains + seeded random RTU streams "
+             "(valid frames of all 8 functions and exception replies, bit flips, bad CRC, garbage, truncation) under random chunkings; "
+             "distinct = distinct case line; non-trivial = at least one frame or error event (crc: every case)",
+        assumptions=["serial line delivers bytes in order", "inter-frame timing (t3.5) is not used by the code and not modelled"],
+    ),
 }
